@@ -13,15 +13,16 @@ import (
 
 // E is an editable box tree node.
 type E struct {
-	Type      string
-	Large     bool
-	Container bool
-	Prefix    []byte // bytes between header and first child (containers)
-	Payload   []byte // leaf payload
-	Children  []*E
-	OrigSize  int
-	Stale     bool    // serialise with OrigSize instead of the true size
-	ForceSize *uint32 // serialise with this size field
+	Type        string
+	Large       bool
+	Container   bool
+	Prefix      []byte // bytes between header and first child (containers)
+	Payload     []byte // leaf payload
+	Children    []*E
+	OrigSize    int
+	Stale       bool    // serialise with OrigSize instead of the true size
+	ForceSize   *uint32 // serialise with this size field
+	ForceSize64 *uint64 // serialise as largesize header with this 64-bit size
 }
 
 // Parse builds an editable forest from bytes (nil if the walker cannot tile).
@@ -80,7 +81,11 @@ func (e *E) append(out []byte) []byte {
 	}
 	var hdr [16]byte
 	copy(hdr[4:8], e.Type)
-	if e.Large {
+	if e.ForceSize64 != nil {
+		binary.BigEndian.PutUint32(hdr[0:], 1)
+		binary.BigEndian.PutUint64(hdr[8:], *e.ForceSize64)
+		out = append(out, hdr[:16]...)
+	} else if e.Large {
 		binary.BigEndian.PutUint32(hdr[0:], 1)
 		binary.BigEndian.PutUint64(hdr[8:], size)
 		if e.ForceSize != nil {
@@ -366,6 +371,27 @@ func mutateOnce(r *runner.Rand, b []byte, other []byte, mode Mode) ([]byte, stri
 			v = true32 - uint32(r.Intn(int(true32)+1))
 		default:
 			v = r.Uint32()
+		}
+		if r.Chance(1, 5) {
+			// 64-bit largesize header with an extreme value
+			t := uint64(x.e.Size()) + 8
+			v64 := r.PickU64(1<<63, 1<<63+t, 1<<63-1, ^uint64(0), ^uint64(0)-7, 1<<32, 1<<32+t, 1<<62, t+1<<40, 0, 15, 16, t-1, t+1)
+			if sib := siblings(es, x); x.idx > 0 && r.Bool() {
+				// a size that, read as a signed offset, points back to an earlier sibling
+				back := uint64(0)
+				for k := x.idx - 1; k >= 0; k-- {
+					back += uint64(sib[k].Size())
+					if r.Bool() {
+						break
+					}
+				}
+				v64 = -back
+				if r.Bool() {
+					v64 += 16
+				}
+			}
+			x.e.ForceSize64 = &v64
+			return Serialize(es), fmt.Sprintf("largesize of %s = %#x", x.e.Type, v64)
 		}
 		x.e.ForceSize = &v
 		return Serialize(es), fmt.Sprintf("size of %s %d->%d", x.e.Type, true32, v)
